@@ -277,7 +277,7 @@ def c01(run):
                         for fam in fams])
     for fam, st in zip(fams, sts):
         path, n = run.records(st)
-        run.replay("render", path, name="render-" + fam)
+        run.replay("render", path, name="render-" + fam, env={"TWH_ALSO_TEMPLATE": "1"})
         run.add_samples(path, 1)
     return vp.finish(run, "model_checking",
                      "expression trees (every pair, and in the thorough tier every triple, of the 11 binary operators "
@@ -426,7 +426,7 @@ def c10(run):
     st, st2 = run.tlc_many([dict(module="MC_Text", cfg=text_cfg(fam), name="MC_Text_" + fam, timeout=3000, workers=1),
                             dict(module="MC_Link", cfg=link_cfg("c10tree"), name="MC_Link_c10tree", timeout=900, workers=1)])
     path, n = run.records(st)
-    run.replay("render", path, name="render-" + fam)
+    run.replay("render", path, name="render-" + fam, env={"TWH_ALSO_TEMPLATE": "1"})
     run.add_samples(path, 2)
     path2, n2 = run.records(st2)
     run.replay("tree", path2, name="tree-c10")     # literal as insert argument, component argument, in a slot body
@@ -468,7 +468,7 @@ def c11(run):
                              name="MC_Builtins_" + fam, timeout=3000, workers=2) for fam in fams])
     for fam, st in zip(fams, sts):
         path, n = run.records(st)
-        run.replay("render", path, name="render-" + fam)
+        run.replay("render", path, name="render-" + fam, env={"TWH_ALSO_TEMPLATE": "1"})
         run.add_samples(path, 1)
     return vp.finish(run, "model_checking",
                      "every built-in on its whole small domain: all strings up to the length bound over {a, B, e-acute, "
